@@ -4,7 +4,7 @@
 From Coq Require Import Extraction ExtrOcamlBasic.
 From TS Require Import Model.Str Model.Outcome Model.Unicode Model.Rename Spec.SerdeCase Spec.C16Spec
   Model.Types Model.Parse Model.Reconcile Model.Collect Model.Lang.Common Model.Lang.Decl Model.Lang.TypeScript Model.Lang.ConvertCase Model.Lang.Python Model.Lang.Swift Model.Lang.Go Model.Lang.Scala Model.Lang.Kotlin Model.TopsortAlgo Model.Topsort Spec.C11Spec Spec.Serde Spec.C08Spec Spec.C03Spec Model.Integer Spec.JsSafe Model.Syntax Model.Attrs Model.TargetOs Spec.TargetOsRule
-  Model.Config Spec.C20Spec.
+  Model.Config Spec.C20Spec Model.Writer Spec.C17Spec.
 Extraction Language OCaml.
 Set Extraction AccessOpaque.
 Extraction "model.ml"
@@ -30,4 +30,7 @@ Extraction "model.ml"
   Config.find_loop Config.find_configuration_file Config.load_config Config.store_config
   Config.generate_types Config.generate_config Config.cli_main
   C20Spec.effective C20Spec.expected_config C20Spec.expected_backend C20Spec.nearest_config
-  C20Spec.expected_generate C20Spec.expected_generate_config C20Spec.persisted.
+  C20Spec.expected_generate C20Spec.expected_generate_config C20Spec.persisted
+  Writer.run_full Writer.run_trace Writer.run_history Writer.content Writer.mtime_of
+  C17Spec.succeeds C17Spec.responsible C17Spec.may_touch C17Spec.rewritten_each_run C17Spec.known_C17
+  C17Spec.good_rerun C17Spec.good_fresh C17Spec.nonempty_outputs C17Spec.dom_C17.
